@@ -292,6 +292,9 @@ func (g *c09gen) wrap(op ops.Op) ops.Op {
 	}
 }
 
+// Tier is set by the driver; the thorough tier also draws larger runs (more tasks, longer scripts).
+var Tier = "quick"
+
 // C09 generates run number `run` of the C09 check.
 func C09(seed uint64, run int) *spec.Spec {
 	r := NewRng(seed, 9, run)
@@ -330,9 +333,13 @@ func C09(seed uint64, run int) *spec.Spec {
 	s.Clock = spec.Clock{Now: time.Date(cy, time.Month(r.Range(2, 11)), r.Range(1, 28), r.Intn(24), r.Intn(60), r.Intn(60), 0, time.UTC).Format(time.RFC3339Nano),
 		ZoneS: r.Range(-12, 14) * 3600, TickNs: 1000000}
 
+	big := Tier == "thorough" && r.Chance(0.25)
 	nTasks := 1
 	if kind != 0 {
 		nTasks = r.Range(2, 5)
+		if big {
+			nTasks = r.Range(4, 6)
+		}
 	}
 	nUniv := r.Range(6, 18)
 	if g.focus != "" {
@@ -345,6 +352,12 @@ func C09(seed uint64, run int) *spec.Spec {
 		n := r.Range(2, 7)
 		if kind == 0 {
 			n = r.Range(3, 12)
+		}
+		if big {
+			n = r.Range(6, 14)
+			if kind == 0 {
+				n = r.Range(12, 30)
+			}
 		}
 		var task spec.Task
 		for i := 0; i < n; i++ {
